@@ -5,6 +5,13 @@ package serialize
 // Contracts for the deductive verifier under /verif (govc). This file contains
 // only comments: it adds no code with or without the build tag.
 
+// The websocket server hands one serializer instance per subprotocol to the
+// peers of every connection of every realm, each of which serializes from its
+// own goroutine: serializers hold no state of their own (C11, C15).
+//@ immutable CBORSerializer *
+//@ immutable JSONSerializer *
+//@ immutable MessagePackSerializer *
+
 // What the transports rely on from a serializer (the codecs themselves are
 // third-party code and are trusted): serialising changes no modelled state,
 // and deserialising yields a real message or an error.
